@@ -1,6 +1,7 @@
 (* C17 — property theorems only.  Each is closed by [exact <lemma>] and followed by
    Print Assumptions. *)
-From V Require Import Common.NumFacts C17.Model C17.Proofs.
+From Coq Require Import Permutation.
+From V Require Import Common.NumFacts C17.Model C17.Proofs C17.ProofsDeep.
 
 (* a + b applied to any feed = a and b (converted to a's basis) in parallel on that feed *)
 Theorem C17_add_is_parallel : forall mws a b c b' m,
@@ -137,6 +138,29 @@ Theorem C17_reduce_spares_receiver : forall xs, sstep xs SReduce = Ok xs.
 Proof. reflexivity. Qed.
 Print Assumptions C17_reduce_spares_receiver.
 
+(* reduce(), one reactant group: the member it builds (first.copy(), then += every other member) acts on every feed like
+   the members it was folded from, whenever no partial sum of conversions cancels (the 0/0 case of the source) *)
+Theorem C17_reduce_group_acts_like_members : forall mws feed acc rs c,
+  fold_add mws acc rs = Ok c -> normalised acc -> length (st acc) = length feed ->
+  group_ok (length feed) acc (X acc) rs ->
+  veq (react c feed) (react_parallel (acc :: rs) feed).
+Proof. exact reduce_group_acts_lemma. Qed.
+Print Assumptions C17_reduce_group_acts_like_members.
+
+(* reduce(), whole set: however the set orders its members, the reduced ParallelReaction acts like the set *)
+Theorem C17_reduce_acts_like_set : forall mws feed set gs cs,
+  Permutation set (members gs) -> reduce_groups mws gs = Ok cs -> groups_ok (length feed) gs ->
+  veq (react_parallel cs feed) (react_parallel set feed).
+Proof. exact reduce_acts_like_set_lemma. Qed.
+Print Assumptions C17_reduce_acts_like_set.
+
+(* ... and folding such a group never raises *)
+Theorem C17_reduce_group_total : forall mws n rs acc,
+  normalised acc -> length (st acc) = n -> group_ok n acc (X acc) rs ->
+  exists c, fold_add mws acc rs = Ok c.
+Proof. exact (fun mws n => fold_add_total mws n). Qed.
+Print Assumptions C17_reduce_group_total.
+
 (* non-vacuity: the hypotheses of the algebraic theorems are met by a concrete pair *)
 Definition exA := mkrxn [-1; 1#2; 0; 0] 0 (1#2) false [].
 Definition exB := mkrxn [-1; 0; 2; 0] 0 (1#4) false [].
@@ -147,4 +171,17 @@ Example C17_nonvacuous :
 Proof.
   eexists; eexists. split; [vm_compute; reflexivity|]. split; [vm_compute; reflexivity|].
   repeat split; try (vm_compute; reflexivity); unfold normalised; vm_compute; congruence.
+Qed.
+
+(* non-vacuity of the reduce theorems: a set of three members, two sharing the reactant, listed in another order *)
+Definition exC := mkrxn [0; -1; 0; 3] 1 (1#8) false [].
+Example C17_reduce_nonvacuous :
+  groups_ok 4 [(exA, [exB]); (exC, [])] /\
+  Permutation [exA; exC; exB] (members [(exA, [exB]); (exC, [])]) /\
+  exists cs, reduce_groups [16;32;8;4] [(exA, [exB]); (exC, [])] = Ok cs /\ length cs = 2%nat.
+Proof.
+  split; [|split].
+  - simpl. unfold same_kind, normalised. repeat split; try reflexivity; try (vm_compute; congruence).
+  - simpl. apply perm_skip. apply perm_swap.
+  - eexists. split; [vm_compute; reflexivity|reflexivity].
 Qed.
